@@ -2319,3 +2319,177 @@ func rulePIDXRPC(p *Program, r *Reporter) {
 	}
 	_ = srv
 }
+
+// ---------------------------------------------------------------------------
+// P-POLL: every polling loop on the transact path ends, whatever optional
+// members the request carries.
+//
+// The server executes a transaction under its transaction lock, so nothing a
+// polling loop waits for can change while it polls: a loop that sleeps and
+// retries must have an exit that only depends on elapsed time, and that exit
+// must be reachable for every configuration of the operation's optional
+// members. Structural form, for each loop in the functions reachable from
+// OvsdbServer.Transact that calls time.Sleep: there is an exit edge whose branch
+// condition derives from time.Since/Now/Sub/After/Before; and each nil test of
+// a pointer that guards it on its non-nil side (the timeout is given) leaves
+// the loop on its nil side.
+
+func rulePPOLL(p *Program, r *Reporter) {
+	const id = "P-POLL"
+	isTimeCall := func(v ssa.Value) bool {
+		c, ok := v.(*ssa.Call)
+		if !ok {
+			return false
+		}
+		sc := c.Call.StaticCallee()
+		if sc == nil || sc.Pkg == nil || sc.Pkg.Pkg.Path() != "time" {
+			return false
+		}
+		switch sc.Name() {
+		case "Since", "Now", "Sub", "After", "Before", "Until":
+			return true
+		}
+		return false
+	}
+	var fromTime func(v ssa.Value, depth int) bool
+	fromTime = func(v ssa.Value, depth int) bool {
+		if v == nil || depth > 5 {
+			return false
+		}
+		if isTimeCall(v) {
+			return true
+		}
+		switch x := v.(type) {
+		case *ssa.BinOp:
+			return fromTime(x.X, depth+1) || fromTime(x.Y, depth+1)
+		case *ssa.UnOp:
+			return fromTime(x.X, depth+1)
+		case *ssa.Convert:
+			return fromTime(x.X, depth+1)
+		case *ssa.ChangeType:
+			return fromTime(x.X, depth+1)
+		case *ssa.Call:
+			for _, a := range x.Call.Args {
+				if fromTime(a, depth+1) {
+					return true
+				}
+			}
+		}
+		return false
+	}
+	n := 0
+	for _, fn := range txnScope(p) {
+		for _, h := range fn.Blocks {
+			isHeader := false
+			for _, pr := range h.Preds {
+				if h.Dominates(pr) {
+					isHeader = true
+				}
+			}
+			if !isHeader {
+				continue
+			}
+			var sleepAt ssa.Instruction
+			for _, b := range fn.Blocks {
+				if b != h && !inLoopOf(h, b) {
+					continue
+				}
+				for _, ins := range b.Instrs {
+					if c, ok := ins.(*ssa.Call); ok {
+						if sc := c.Call.StaticCallee(); sc != nil && sc.String() == "time.Sleep" {
+							sleepAt = c
+						}
+					}
+				}
+			}
+			if sleepAt == nil {
+				continue
+			}
+			n++
+			inLoop := func(b *ssa.BasicBlock) bool { return b == h || inLoopOf(h, b) }
+			ok, why := false, "the loop sleeps and retries but no exit depends on elapsed time only: under the transaction lock nothing it waits for can change, so it never ends and the server stops answering"
+			for _, b := range fn.Blocks {
+				if !inLoop(b) {
+					continue
+				}
+				iff, isIf := b.Instrs[len(b.Instrs)-1].(*ssa.If)
+				if !isIf || !fromTime(iff.Cond, 0) {
+					continue
+				}
+				exits := false
+				for _, s := range b.Succs {
+					if !inLoop(s) {
+						exits = true
+					}
+				}
+				if !exits {
+					continue
+				}
+				// nil tests guarding this exit on their non-nil side; a subject whose nil
+				// side leaves the loop at one of them is known to be given from there on
+				guarded := ""
+				given := map[ssa.Value]bool{}
+				for d := b.Idom(); d != nil && inLoop(d); d = d.Idom() {
+					if dif, isIf := d.Instrs[len(d.Instrs)-1].(*ssa.If); isIf {
+						if bo, isBin := dif.Cond.(*ssa.BinOp); isBin && (bo.Op == token.EQL || bo.Op == token.NEQ) {
+							var subj ssa.Value
+							if isNilConst(bo.Y) {
+								subj = bo.X
+							} else if isNilConst(bo.X) {
+								subj = bo.Y
+							}
+							nonNil, nilSide := d.Succs[0], d.Succs[1]
+							if bo.Op == token.EQL {
+								nonNil, nilSide = nilSide, nonNil
+							}
+							if subj != nil && (nonNil == b || nonNil.Dominates(b)) && !inLoop(nilSide) {
+								given[subj] = true
+							}
+						}
+					}
+				}
+				for d := b.Idom(); d != nil && inLoop(d); d = d.Idom() {
+					dif, isIf := d.Instrs[len(d.Instrs)-1].(*ssa.If)
+					if !isIf {
+						continue
+					}
+					bo, isBin := dif.Cond.(*ssa.BinOp)
+					if !isBin || (bo.Op != token.EQL && bo.Op != token.NEQ) {
+						continue
+					}
+					var subj ssa.Value
+					if isNilConst(bo.Y) {
+						subj = bo.X
+					} else if isNilConst(bo.X) {
+						subj = bo.Y
+					}
+					if subj == nil {
+						continue
+					}
+					if _, isPtr := subj.Type().Underlying().(*types.Pointer); !isPtr {
+						continue
+					}
+					nonNil, nilSide := d.Succs[0], d.Succs[1]
+					if bo.Op == token.EQL {
+						nonNil, nilSide = nilSide, nonNil
+					}
+					if !(nonNil == b || nonNil.Dominates(b)) {
+						continue
+					}
+					if inLoop(nilSide) && !given[subj] {
+						guarded = fmt.Sprintf("the time limit is only looked at when %s is given (%s): without it the loop sleeps and retries for ever, holding the transaction lock — the request is never answered and the server stops serving", opndStr(subj), p.Pos(dif.Cond.Pos()))
+					}
+				}
+				if guarded == "" {
+					ok, why = true, "an exit that depends on elapsed time only is reachable whatever optional members are given (without a limit the loop is left at once)"
+					break
+				}
+				why = guarded
+			}
+			r.Ob(id, funcName(fn), "polling loop", sleepAt.Pos(), ok, true, why)
+		}
+	}
+	if n < 1 {
+		r.Anchor(id, "no polling loop (time.Sleep inside a loop) on the transact path")
+	}
+}
